@@ -112,10 +112,42 @@ def own_exprs(st):
     return out
 
 
+# signatures of the top-level functions of the analysed package, by simple name (None when two modules define the name differently);
+# filled by SourceIndex so that an argument can be found whether it is passed by keyword or by position
+SIGNATURES = {}
+
+
+def register_signatures(index):
+    SIGNATURES.clear()
+    for module in index.modules.values():
+        for st in module.tree.body:
+            params = None
+            if isinstance(st, (ast.FunctionDef, ast.AsyncFunctionDef)) and not st.args.vararg and not st.args.posonlyargs:
+                params = [a.arg for a in st.args.args]
+            elif isinstance(st, ast.ClassDef):
+                init = next((m for m in st.body if isinstance(m, (ast.FunctionDef, ast.AsyncFunctionDef)) and m.name == '__init__'), None)
+                if init is not None and not init.args.vararg and not init.args.posonlyargs and init.args.args:
+                    params = [a.arg for a in init.args.args[1:]]
+            if params is None:
+                continue
+            if st.name in SIGNATURES and SIGNATURES[st.name] != params:
+                SIGNATURES[st.name] = None
+            else:
+                SIGNATURES[st.name] = params
+
+
 def kwarg(call, name, default=None):
+    """The argument a call passes for the parameter `name`: by keyword, or -- for a call of a package function by its plain name -- by position."""
     for k in call.keywords:
         if k.arg == name:
             return k.value
+    fname = call.func.id if isinstance(call.func, ast.Name) else call.func.attr if isinstance(call.func, ast.Attribute) and isinstance(call.func.value, ast.Name) \
+        and call.func.value.id not in ('self', 'cls') else None
+    params = SIGNATURES.get(fname) if fname else None
+    if params and name in params:
+        pos = params.index(name)
+        if pos < len(call.args) and not any(isinstance(a, ast.Starred) for a in call.args[:pos + 1]):
+            return call.args[pos]
     return default
 
 
